@@ -4,3 +4,5 @@ import MocModel.Matcher
 import MocModel.Spec.Nip01
 import MocModel.Middleware
 import MocModel.Spec.Mw
+import MocModel.Prom
+import MocModel.Spec.Prom
